@@ -102,9 +102,13 @@ func RunPair(t *testing.T, spec RunSpec, v PairVariant, stats *Stats) *RunResult
 	ra := runWithSalt(t, a, v, false, stats)
 	rb := runWithSalt(t, b, v, true, newStats())
 	res := &RunResult{Seed: spec.Seed, Prop: spec.Prop, ConfigText: ra.ConfigText, Scans: ra.Scans, Lifetimes: ra.Lifetimes, SimSeconds: ra.SimSeconds, LogHash: ra.LogHash + "/" + rb.LogHash, Calm: true}
+	// both members draw a key from the same PRNG but may consume different lengths: keep the longer recording
 	res.Streams = ra.Streams
+	if res.Streams == nil {
+		res.Streams = map[string][]uint32{}
+	}
 	for k, vals := range rb.Streams {
-		if _, ok := res.Streams[k]; !ok {
+		if len(vals) > len(res.Streams[k]) {
 			res.Streams[k] = vals
 		}
 	}
